@@ -5,6 +5,7 @@ import (
 	"bytes"
 	"encoding/json"
 	"fmt"
+	"os"
 	"sort"
 	"strings"
 	"testing"
@@ -188,6 +189,48 @@ func judgeC14(rec *stats.Rec, c c14Case) (string, string) {
 			return "unknown-label-accepted", fmt.Sprintf("result object with status %q is accepted", c.Label)
 		}
 		rec.NT(stats.HashS("label", c.Label))
+	case "status-token":
+		// any JSON value in the place of a status label: decoding must fail cleanly (an error, never a
+		// panic) or, if it is accepted, yield one of the defined statuses
+		try := func(doc string, into interface{}, get func() lint.LintStatus) (sig, msg string) {
+			defer func() {
+				if p := recover(); p != nil {
+					sig, msg = "decode-panic", fmt.Sprintf("decoding %s panics: %v", short(doc, 80), p)
+				}
+			}()
+			if err := json.Unmarshal([]byte(doc), into); err == nil {
+				if st := get(); st < lint.Reserved || st > lint.Fatal {
+					return "unknown-label-accepted", fmt.Sprintf("%s is accepted as status %d", short(doc, 80), st)
+				}
+				var sv string
+				isLabel := json.Unmarshal([]byte(c.Label), &sv) == nil && labelSet()[sv]
+				if !isLabel && strings.TrimSpace(c.Label) != "null" {
+					return "unknown-label-accepted", fmt.Sprintf("%s is accepted as a status (%d) although it is not one of the labels", short(doc, 80), get())
+				}
+			}
+			return "", ""
+		}
+		if !json.Valid([]byte(c.Label)) {
+			return "", ""
+		}
+		var st lint.LintStatus
+		if sig, msg := try(c.Label, &st, func() lint.LintStatus { return st }); msg != "" {
+			return sig, msg
+		}
+		var res lint.LintResult
+		if sig, msg := try(`{"result":`+c.Label+`,"details":"x"}`, &res, func() lint.LintStatus { return res.Status }); msg != "" {
+			return sig, msg
+		}
+		var rs zlint.ResultSet
+		if sig, msg := try(`{"version":3,"timestamp":1,"lints":{"e_x":{"result":`+c.Label+`}}}`, &rs, func() lint.LintStatus {
+			if r := rs.Results["e_x"]; r != nil {
+				return r.Status
+			}
+			return lint.Pass
+		}); msg != "" {
+			return sig, msg
+		}
+		rec.NT(stats.HashS("token", c.Label))
 	case "writejson":
 		var reg lint.Registry = lint.GlobalRegistry()
 		if c.Filter != nil {
@@ -243,6 +286,15 @@ func judgeC14(rec *stats.Rec, c c14Case) (string, string) {
 	return "", ""
 }
 
+func statusLabelList() []string {
+	var out []string
+	for _, l := range statusLabels {
+		out = append(out, l)
+	}
+	sort.Strings(out)
+	return out
+}
+
 func labelSet() map[string]bool {
 	m := map[string]bool{}
 	for _, l := range statusLabels {
@@ -252,7 +304,7 @@ func labelSet() map[string]bool {
 }
 
 // hostileStrings end up in details through subject / SAN contents.
-var hostileDetail = [][]byte{{0xff}, {0xc2}, []byte("\"quoted\""), []byte("<a&b>"), []byte("  "), {0}, []byte("a\\b"), {0xe2, 0x80}, []byte("\x7f\x1b[0m"), []byte("é\xe9")}
+var hostileDetail = [][]byte{[]byte("100%25 real"), []byte("%s%d%v"), []byte("%!(EXTRA)"), []byte("%"), []byte("%%"), []byte("%+q"), []byte("\xe2\x80\xa8"), []byte("</script>"), []byte("\\u0041"), {0xff}, {0xc2}, []byte("\"quoted\""), []byte("<a&b>"), []byte("  "), {0}, []byte("a\\b"), {0xe2, 0x80}, []byte("\x7f\x1b[0m"), []byte("é\xe9")}
 
 func TestC14(t *testing.T) {
 	rec := newRec(t, "C14")
@@ -296,9 +348,20 @@ func TestC14(t *testing.T) {
 			t.Errorf("c14: %s: %s", sig, msg)
 		}
 	}
+	for _, tok := range []string{"0", "1", "7", "8", "9", "-1", "12", "3.5", "1e3", "null", "true", "false", "[]", "{}", `""`, `"\""`, `[ "pass" ]`, `{"result":"pass"}`, `"p"`, `"\u0070ass"`, ` "pass" `, `"pass\n"`} {
+		c := c14Case{What: "status-token", Label: tok}
+		rec.Eval()
+		if sig, msg := judgeC14(rec, c); msg != "" {
+			if rec.Report("c14", sig, msg, c) {
+				t.Errorf("c14 status token %s: %s: %s", tok, sig, msg)
+			}
+		}
+	}
 	rec.Exhaustive("status values -3..12, the 8 labels, WriteJSON of the global registry", true)
 
 	co := gen.LoadCorpus()
+	cli := os.Getenv("VERIF_CLI")
+	cliBudget := stats.Scale(40, 1500)
 	rapidRun(t, "resultsets", perShard(stats.Scale(12000, 300000)), func(rt *rapid.T) {
 		ec := drawObject(rt, 3, true)
 		// bias: plant hostile bytes into string leaves so details carry them
@@ -330,10 +393,45 @@ func TestC14(t *testing.T) {
 		if sig, msg := judgeC14(rec, c); msg != "" {
 			fail(rt, rec, "c14", sig, msg, c)
 		}
+		// the same result set as the command line tool prints it (default and -pretty): when the
+		// details carry anything beyond plain words, the printed JSON must decode to the same texts
+		if cli != "" && cliBudget > 0 && ec.Kind != gen.OCSP && len(ec.Filters) <= 1 && ec.Config == nil && !ec.NilReg {
+			if run := engine.Execute(ec, false); run.Parsed && run.RS != nil {
+				special := false
+				for _, r := range run.RS.Results {
+					if strings.ContainsAny(r.Details, "%\\\"<>&\x00\x7f") || !utf8.ValidString(r.Details) || strings.Contains(r.Details, "\u2028") {
+						special = true
+						break
+					}
+				}
+				if special {
+					cliBudget--
+					cc := c15Case{Inputs: []c15Input{{Kind: ec.Kind, DER: ec.DER, Encoding: "pem", Delivery: "file", Base: ec.Base}}, Format: "pem",
+						Output: rapid.SampledFrom([]string{"default", "default", "pretty"}).Draw(rt, "clioutput")}
+					if len(ec.Filters) == 1 {
+						cc.Filter = &ec.Filters[0]
+					}
+					if dir, err := os.MkdirTemp("", "verif-c14-"); err == nil {
+						sig, msg := judgeC15(rec, cc, cli, dir)
+						os.RemoveAll(dir)
+						rec.Class("cli_special_details")
+						if msg != "" {
+							fail(rt, rec, "c15", "cli-output|"+sig, msg, cc)
+						}
+					}
+				}
+			}
+		}
 	})
 	rapidRun(t, "synthetic", perShard(stats.Scale(8000, 200000)), func(rt *rapid.T) {
 		var c c14Case
-		switch rapid.IntRange(0, 3).Draw(rt, "what") {
+		switch rapid.IntRange(0, 4).Draw(rt, "what") {
+		case 4:
+			tok := rapid.OneOf(rapid.Map(rapid.IntRange(-20, 300), func(i int) string { return fmt.Sprint(i) }),
+				rapid.SampledFrom([]string{"null", "true", "false", "[]", "{}", `""`, "[1]", `{"a":1}`, "0.0", "-0", "1E2"}),
+				rapid.Map(rapid.String(), func(s string) string { b, _ := json.Marshal(s); return string(b) }),
+				rapid.Map(rapid.SampledFrom(statusLabelList()), func(s string) string { b, _ := json.Marshal(s); return string(b) })).Draw(rt, "token")
+			c = c14Case{What: "status-token", Label: tok}
 		case 0, 1:
 			c = c14Case{What: "synthetic", Status: rapid.IntRange(0, 7).Draw(rt, "status"),
 				Details: rapid.OneOf(rapid.SliceOfN(rapid.Byte(), 0, 24), rapid.Map(rapid.String(), func(s string) []byte { return []byte(s) })).Draw(rt, "details")}
